@@ -64,6 +64,14 @@ def gen_bitstream(rng, count, exhaustive_pairs=True):
             tv2 = tv if (mode in ("same", "first") or not tailw) else tv ^ (1 << rng.randrange(tailw))
             ops += ["ws", "w %d %d" % (w0, v0)] + (["w %d %d" % (tailw, tv)] if tailw else []) + ["snap", "eq", "ws", "w %d %d" % (w0, v1)] + (["w %d %d" % (tailw, tv2)] if tailw else []) + ["eq"]
         lines.append("bs %d : %s" % (cap, " ; ".join(ops)))
+    # a reader opened before (some of) its data is written: it reads the buffer, not a snapshot of it
+    for _ in range(max(6, count // 4)):
+        cap = rng.choice([c for c in CAPS if c >= 16]); ops = ["ws", "rs"]; used = 0
+        while used < cap:
+            w = min(cap - used, rng.choice([1, 3, 7, 8, 9, 16, 32])); used += w
+            ops += ["w %d %d" % (w, rng.choice([(1 << w) - 1, rng.randrange(1 << w), 1])), "r %d" % w]
+            if rng.random() < 0.2: break
+        lines.append("bs %d : %s" % (cap, " ; ".join(ops)))
     # streams opened at a cursor: the write stream's constructor clears the whole buffer whatever the cursor (so a reused, dirty buffer must
     # not leak into the fields), the read stream starts reading at its cursor
     for _ in range(max(6, count // 3)):
@@ -137,6 +145,7 @@ def gen_arrays(rng, count):
                 r = rng.random()
                 if r < 0.35 and n < cap: ops.append("%s %d" % (rng.choice(["emp", "add", "addc"]), rng.randint(-99, 99))); n += 1
                 elif r < 0.45 and n < cap and n > 0: ops.append("%s %d" % (rng.choice(["emplv", "empc", "addlv"]), rng.randrange(n))); n += 1
+                elif r < 0.52 and n > 0: ops.append(rng.choice(["selfassign", "copyback", "copyctor"]))
                 elif r < 0.65 and n > 0: ops.append("get %d" % rng.randrange(n))
                 elif r < 0.72: ops.append("clear"); n = 0
                 elif n < cap:
